@@ -9,7 +9,7 @@ from .alg import Poly, as_poly, AlgError, ONE
 from . import tens as T
 from .tens import Tens, Unsupported, ShapeError, is_sym
 
-BASE_VARYING = {"k", "k1", "x", "x1", "u", "I", "F", "Fx", "Ix", "carry", "idx"}
+BASE_VARYING = {"k", "k1", "x", "x1", "u", "I", "F", "Fx", "Ix", "carry", "idx", "PSum"}
 SCALAR_TAGS = {"s", "num", "dc", "Idc", "Sum", "Mean", "Std", "Max", "Min", "Var", "RSum", "expc", "StdC", "MaxC", "MinC"}
 
 _var_cache = {}
@@ -78,6 +78,10 @@ def sym_sum(e, lens):
         if var:
             if len(var) == 1 and var[0][0][0] == "I" and var[0][1] == 1 and len(var[0][0]) == 4:
                 continue  # I[m, X] is the inverse transform WITHOUT its mean mode: it sums to zero
+            if len(var) == 1 and var[0][0][0] == "PSum" and var[0][1] == 1 and len(lens) == var[0][0][4] - len(var[0][0][2]):
+                a = var[0][0]  # the remaining axes of a partial sum are summed: the whole grid sum
+                out = out + base * sym_sum(a[1], tuple(a[3]) + lens)
+                continue
             out = out + base * Poly.atom(("Sum", Poly({var: ONE}), lens))
         else:
             out = out + base * tot
@@ -86,6 +90,48 @@ def sym_sum(e, lens):
 
 def sym_mean(e, lens):
     return sym_sum(e, lens) / _total(lens)
+
+
+def partial_sum(e, lens, axes, D):
+    """sum over a proper subset `axes` (positions among the D symbolic axes) of a representative entry: linear,
+    factors that do not vary along the summed axes are pulled out, the rest becomes the uninterpreted atom
+    PSum[summand, axes, lens, D] (a field over the remaining axes).  Nested partial sums merge; once every axis is
+    summed the result is the ordinary grid sum."""
+    axes = tuple(sorted(axes))
+    lens = tuple(lens)
+    tot = _total(lens)
+
+    def along(a):
+        if a[0] == "k":
+            return a[1] in axes
+        if a[0] == "idx" and isinstance(a[1], tuple) and a[1][0] == "grid":
+            return a[1][1] in axes
+        if a[0] == "PSum":
+            return True
+        return varies(a)
+
+    out = Poly()
+    for c, const, var in split_terms(e, along):
+        base = Poly({const: c})
+        if not var:
+            out = out + base * tot
+            continue
+        if len(var) == 1 and var[0][1] == 1 and var[0][0][0] == "PSum":
+            a = var[0][0]
+            if not set(a[2]) & set(axes):
+                merged = tuple(sorted(set(a[2]) | set(axes)))
+                mlens = tuple(a[3]) + lens
+                if len(merged) == a[4]:
+                    out = out + base * sym_sum(a[1], mlens)
+                else:
+                    out = out + base * Poly.atom(("PSum", a[1], merged, mlens, a[4]))
+                continue
+        out = out + base * Poly.atom(("PSum", Poly({var: ONE}), axes, lens, D))
+    return out
+
+
+def partial_mean(e, lens, axes, D):
+    return partial_sum(e, lens, axes, D) / _total(tuple(lens))
 
 
 def sym_stat(name, e, lens):
